@@ -421,6 +421,9 @@ func (e *Environment) SetNoChecks(name string, val Object, create bool) Object {
 		e.getMiss++ // writing to an outer variable is a side effect: not cacheable (whatever the variable holds).
 		ref.RefEnv.changing(ref.Name)
 		ref.RefEnv.store[ref.Name] = Value(val) // kinda neat to make aliases but it can create loops, so not for now.
+		if ref.RefEnv.depth == 0 {
+			ref.RefEnv.numSet++ // a global changed, like in update(): auto save must not see "nothing changed".
+		}
 		return val
 	}
 	log.Debugf("SetNoChecks(%s) brand new to %d and above", name, e.depth)
